@@ -38,7 +38,22 @@ def decode(res, raw, inv, label):
                       case)
         return None
     res.count('records_compared')
+    RETAINED.append((got, raw, inv, label))
     return got
+
+
+RETAINED = []     # every decoded record is kept and compared again at the end: nothing reported may change later
+
+
+def recheck_retained(res):
+    for got, raw, inv, label in RETAINED:
+        bad = logs.compare(got, logs.ref_decode(raw, inv))
+        res.count('records_rechecked_at_end')
+        if bad:
+            res.violation('c16-decoded-record-changed-later', f'{label}: a record that compared equal right after decoding '
+                          f'differs after later records were decoded: {[(b[0], str(b[1])[:60], str(b[2])[:60]) for b in bad[:3]]}',
+                          {'raw': raw, 'strings': {str(k): v for k, v in inv.items()}})
+            return
 
 
 def subsets_workload(res, ctx, rng):
@@ -144,6 +159,22 @@ def ti_workload(res, ctx, rng):
                                           {'word': word})
 
 
+def alias_workload(res, ctx, rng):
+    """Records that share parts of their values (same low half of the trace identifier with different codes, same
+    string ids, same nested dicts) decoded one after the other and all kept."""
+    strings = logs.Strings(rng)
+    for _ in range(ctx.pick(40, 600)):
+        low = logs.gen_ti(rng) & 0xffffffff
+        shared_dm = logs.gen_dm(rng, strings)
+        for code in (1, 0xffffffff, rng.getrandbits(32), 0):
+            raw = logs.gen_event(rng, strings, [k for k in ('p', 'sub', 'bt', 'lc') if rng.random() < 0.5])
+            raw['ti'] = low | (code << 32)
+            raw['dm'] = logs.fresh(shared_dm)
+            res.case(('alias', raw['ti'], repr(raw['dm'])))
+            decode(res, raw, strings.inverted(), f'trace identifier {hex(raw["ti"])} sharing its low word with other records')
+            res.count('aliasing_records')
+
+
 def end_to_end(res, ctx, rng):
     """The same records through a v3 file and the container parser."""
     from pykdebugparser.kd_buf_parser import KdBufParser
@@ -179,7 +210,9 @@ def run(ctx):
     subsets_workload(res, ctx, rng)
     dm_workload(res, ctx, rng)
     ti_workload(res, ctx, rng)
+    alias_workload(res, ctx, rng)
     end_to_end(res, ctx, rng)
+    recheck_retained(res)
     if ctx.shard == 0:
         r = core.Ctx('C16', ctx.tier, ctx.seed).rng
         s = logs.Strings(r)
